@@ -80,6 +80,19 @@ def mutations(path, ops=None):
                     and '(' in s and s.count('(') == s.count(')') and s.count('{') == s.count('}') and 'panic!' not in s and 'debug_assert' not in s:
                 ind = l[:len(l) - len(l.lstrip())]
                 yield i, 'guard', '%sif !::std::thread::panicking() { %s }' % (ind, s)
+    if ops is not None and 'noopwaker' in ops:
+        # a waker that is registered or used for a poll is replaced by one that does nothing (data flow: *which* waker)
+        for i, l in code:
+            c = l.split('//')[0]
+            m = re.search(r'(\b[a-z_\.]+\.waker\(\)\.clone\(\)|\b[a-z_]*waker\.clone\(\))', c)
+            if m:
+                yield i, 'noopwaker', l.replace(m.group(1), '::futures::task::noop_waker()', 1)
+            m = re.search(r'Context::from_waker\(&([a-z_]+)\)', c)
+            if m:
+                yield i, 'noopctx', l.replace('&' + m.group(1), '::futures::task::noop_waker_ref()', 1)
+            m = re.search(r'task::waker\(([a-z_A-Z:\(\)]+)\)', c)
+            if m and 'fn ' not in c:
+                yield i, 'noopwaker2', l.replace(m.group(0), '{ let _unused = %s; ::futures::task::noop_waker() }' % m.group(1), 1)
     if ops is not None and 'earlyret' in ops:
         # an early exit inserted at a statement boundary of a function that returns () or bool: "the function can stop here"
         ret = None
